@@ -6,6 +6,7 @@ import (
 	"time"
 
 	"github.com/go-logr/logr"
+	k8sjson "k8s.io/apimachinery/pkg/util/json"
 	metav1 "k8s.io/apimachinery/pkg/apis/meta/v1"
 
 	"metacontroller/pkg/apis/metacontroller/v1alpha1"
@@ -118,4 +119,11 @@ func (w *dworld) syncKey(key string) (err error, panicked interface{}, stack str
 // dkey is the decorator's queue key for an object.
 func dkey(o kit.M) string {
 	return kit.Str(o, "apiVersion") + ":" + kit.Str(o, "kind") + ":" + kit.NS(o) + ":" + kit.Name(o)
+}
+
+func jsonUnmarshal(b []byte, v *kit.M) error {
+	m := map[string]interface{}{}
+	err := k8sjson.Unmarshal(b, &m)
+	*v = m
+	return err
 }
